@@ -121,11 +121,31 @@ func C18(p *core.Program, r *core.Report) {
 	for _, e := range fns {
 		allowed[e.fn] = true
 	}
-	// FW
+	// FW. A constructor helper (stores one of its parameters into the budget of a value it returns) that is called
+	// only from the allowed functions is part of them: its call sites are evaluated as the stores.
+	ctorParam := map[*ssa.Function]int{}
 	for _, fn := range p.RepoFuncs() {
 		core.EachInstr(fn, func(in ssa.Instruction) {
 			if st, ok := in.(*ssa.Store); ok && isRemainingCopiesAddr(st.Addr) && !allowed[fn] {
-				r.Fail("who-may-write/"+fname(fn)+"/remainingCopies", "remainingCopies is written only by NotifyNewBundle, SenderForBundle and ReportFailure of the two spray variants", p.Pos(st.Pos()), "unexpected writer")
+				okCtor := false
+				if par, isPar := st.Val.(*ssa.Parameter); isPar && par.Parent() == fn {
+					okCtor = true
+					for _, caller := range p.Callers(fn) {
+						if !allowed[caller] {
+							okCtor = false
+						}
+					}
+					if okCtor {
+						for i, fp := range fn.Params {
+							if fp == par {
+								ctorParam[fn] = i
+							}
+						}
+					}
+				}
+				if !okCtor {
+					r.Fail("who-may-write/"+fname(fn)+"/remainingCopies", "remainingCopies is written only by NotifyNewBundle, SenderForBundle and ReportFailure of the two spray variants (or a constructor helper only they call)", p.Pos(st.Pos()), "unexpected writer")
+				}
 			}
 		})
 	}
@@ -258,22 +278,40 @@ func C18(p *core.Program, r *core.Report) {
 			}
 			r.Check(len(mapUpdatesOf(fn, "bundleData")) >= 1, base+"writes-back", "the entry is written back", p.Pos(fn.Pos()), "", "no map update")
 		case "init":
-			for i, st := range stores {
-				pl, err := copiesSymbolizer().toPoly(st.Val, 0)
+			type initSite struct {
+				val ssa.Value
+				at  ssa.Instruction
+			}
+			var inits []initSite
+			for _, st := range stores {
+				inits = append(inits, initSite{st.Val, st})
+			}
+			core.EachInstr(fn, func(in ssa.Instruction) {
+				if c, ok := in.(*ssa.Call); ok {
+					if cal := c.Common().StaticCallee(); cal != nil {
+						if k, isCtor := ctorParam[cal]; isCtor && k < len(c.Common().Args) {
+							inits = append(inits, initSite{c.Common().Args[k], c})
+							nStores++
+						}
+					}
+				}
+			})
+			for i, st := range inits {
+				pl, err := copiesSymbolizer().toPoly(st.val, 0)
 				key := fmt.Sprintf("%sinitial#%d", base, i)
 				if err != nil {
-					r.Unknown(key, "initial budget", p.Pos(st.Pos()), err.Error())
+					r.Unknown(key, "initial budget", p.Pos(st.at.Pos()), err.Error())
 					continue
 				}
 				ok := polyEq(pl, map[string]float64{"L": 1}) || polyEq(pl, map[string]float64{"": 1}) || polyEq(pl, map[string]float64{"blockCopies": 1})
-				r.Check(ok, key, "the initial budget is the configured L (own bundle), 1 (foreign bundle, vanilla) or the count announced in the received block", p.Pos(st.Pos()), "= "+pl.String(), "= "+pl.String())
+				r.Check(ok, key, "the initial budget is the configured L (own bundle), 1 (foreign bundle, vanilla) or the count announced in the received block", p.Pos(st.at.Pos()), "= "+pl.String(), "= "+pl.String())
 				if polyEq(pl, map[string]float64{"L": 1}) && strings.Contains(fname(fn), "SprayAndWait") {
-					conds := core.DominatingConds(st.Block())
+					conds := core.DominatingConds(st.at.Block())
 					_, g := callGuard(conds, routingPkg+".Core.HasEndpoint", true)
-					r.Check(g, key+"/own-bundle", "the full budget L is given only to bundles whose source is this node", p.Pos(st.Pos()), "", "guard missing; "+condStrings(conds))
+					r.Check(g, key+"/own-bundle", "the full budget L is given only to bundles whose source is this node", p.Pos(st.at.Pos()), "", "guard missing; "+condStrings(conds))
 				}
 			}
-			r.Check(len(stores) >= 2, base+"has-initial", "both origins initialise the budget", p.Pos(fn.Pos()), "", fmt.Sprintf("%d initial stores", len(stores)))
+			r.Check(len(inits) >= 2, base+"has-initial", "both origins initialise the budget", p.Pos(fn.Pos()), "", fmt.Sprintf("%d initial stores", len(inits)))
 		}
 	}
 	r.Min("stores to remainingCopies", 7)
